@@ -243,7 +243,7 @@ PROPS = {
         "gen": ["Settings"],
         "thm_module": "NutsModel.Thm.C19Settings",
         "namespace": "NutsModel.C19",
-        "theorems": ["roundtrip", "fromJson_conforms", "presets_wf", "settings_roundtrip", "presets_names"],
+        "theorems": ["roundtrip", "fromJson_conforms", "presets_wf", "settings_roundtrip", "presets_names", "settings_json_injective", "settings_reencode"],
         "harness": "C19",
         "level": "proof",
         "rule": ("the default value and random values of each of the six settings types (every field randomised: floats over 24 orders of "
